@@ -86,7 +86,7 @@ def _nested(shape: list[int], fn) -> Any:
     return rec((), shape)
 
 
-def invoke(fid: str, kwargs: dict[str, Any]) -> Any:
+def invoke(fid: str, kwargs: dict[str, Any], res: Any = None) -> Any:
     """Body of every harness-built user function."""
     fd = REG[fid]
     kw_json = {p: to_json(kwargs[p]) for p in fd["params"]}
@@ -117,6 +117,8 @@ def invoke(fid: str, kwargs: dict[str, Any]) -> Any:
                 exc.add_note("note added by the user function before raising")
             raise exc
     args = tuple(canon(kwargs[p]) for p in fd["params"])
+    if fd.get("rescpus"):                       # the result depends on the evaluated resources (their cpus count)
+        args = args + (Term(f"@cpus{res.cpus}"),)
     ishape = fd.get("internal_shape") or []
 
     def value(o: str):
@@ -139,12 +141,15 @@ def orig_name(fd: dict, p: str) -> str:
 
 
 def make_callable(fid: str, fd: dict):
-    """A real Python function with the exact signature (original parameter names)."""
+    """A real Python function with the exact signature (original parameter names).  With `rescpus` the function takes the
+    evaluated Resources through the extra argument `res` (resources_variable) and its result depends on res.cpus."""
     names = [orig_name(fd, p) for p in fd["params"]]
     pairs = ", ".join(f"{p!r}: {n}" for p, n in zip(fd["params"], names))
-    src = (f"def {fd['name']}({', '.join(names)}):\n"
+    sig = names + (["res"] if fd.get("rescpus") else [])
+    extra = ", res" if fd.get("rescpus") else ""
+    src = (f"def {fd['name']}({', '.join(sig)}):\n"
            f"    from pfverif import build as _b\n"
-           f"    return _b.invoke({fid!r}, {{{pairs}}})\n")
+           f"    return _b.invoke({fid!r}, {{{pairs}}}{extra})\n")
     ns: dict = {}
     exec(src, ns)  # noqa: S102
     fn = ns[fd["name"]]
@@ -187,7 +192,13 @@ def make_pipefunc(fd: dict, tag: str = ""):
     elif fd.get("outrenamed") or any("." in o for o in outs):
         orig_outs = ["r_" + o.replace(".", "_") for o in outs]
         renames.update(dict(zip(orig_outs, outs)))
-    pf = PipeFunc(fn, orig_outs[0] if len(outs) == 1 else tuple(orig_outs), renames=renames or None,
+    reskw: dict = {}
+    if fd.get("rescpus"):
+        from pipefunc.resources import Resources
+        src_param = fd["rescpus"]
+        reskw = {"resources": (lambda kw, _p=src_param: Resources(cpus=len(kw[_p]))), "resources_variable": "res",
+                 "resources_scope": "map"}
+    pf = PipeFunc(fn, orig_outs[0] if len(outs) == 1 else tuple(orig_outs), renames=renames or None, **reskw,
                   defaults=defaults or None, bound=bound or None, mapspec=fd.get("mapspec"),
                   internal_shape=tuple(ishape) if ishape else None, cache=bool(fd.get("cache", False)))
     pf._pfverif_id = fid  # noqa: SLF001
@@ -281,5 +292,6 @@ def desc_to_tla(desc: dict) -> dict:
             "internal": list(fd.get("internal_shape") or []),
             "cache": bool(fd.get("cache", False)),
             "retnone": bool(fd.get("retnone", False)),
+            "rescpus": fd.get("rescpus") or "",
         })
     return {"funcs": funcs}
